@@ -366,6 +366,54 @@ func %s() {
 	return fam, nil
 }
 
+// c20Entries: the same texts, starting with blank lines, compiled through the other entry points.
+const c20Entries = `
+func viaEntry(entry string, w *world, text string) error {
+	apis := map[string]interface{}{}
+	switch entry {
+	case "incremental":
+		rb := builder.NewRuleBuilder(w.dc)
+		if e := rb.BuildRuleFromString("rule \"seed\" salience -100 begin\n ev(\"seed\")\nend\n"); e != nil {
+			vnd.Assert(false, "build must succeed")
+		}
+		if e := rb.BuildRuleWithIncremental(text); e != nil {
+			vnd.Assert(false, "incremental build must succeed")
+		}
+		return engine.NewGengine().Execute(rb, true)
+	}
+	apis["ev"] = func(s string) { vnd.Event(s) }
+	apis["x"], apis["s"], apis["b"], apis["one"], apis["arr"] = int64(7), "str", true, int64(1), []int64{1, 2}
+	apis["fi"] = func() interface{} { return int64(1) }
+	apis["f1"] = func(a int64) int64 { return a }
+	apis["fb"] = func(a bool) int64 { return 1 }
+	apis["boom"] = func() int64 { panic("boom") }
+	apis["dd"] = &CD{I: 2, P: &In{A: 1}}
+	data := map[string]interface{}{"z": w.z, "ix": w.ix, "d": w.d, "np": w.np}
+	seed := "rule \"seed\" salience -100 begin\n ev(\"seed\")\nend\n"
+	var gp *engine.GenginePool
+	var e error
+	switch entry {
+	case "poolctor":
+		gp, e = engine.NewGenginePool(1, 2, engine.SortModel, text, apis)
+	case "poolupdate":
+		gp, e = engine.NewGenginePool(1, 2, engine.SortModel, seed, apis)
+		if e == nil {
+			e = gp.UpdatePooledRules(text)
+		}
+	default:
+		gp, e = engine.NewGenginePool(1, 2, engine.SortModel, seed, apis)
+		if e == nil {
+			e = gp.UpdatePooledRulesIncremental(text)
+		}
+	}
+	if e != nil {
+		vnd.Assert(false, "compiling through "+entry+" must succeed")
+	}
+	err, _ := gp.Execute(data, true)
+	return err
+}
+`
+
 func genC20(tier string, seed int64) (*Family, error) {
 	pkg := "c20"
 	fam := &Family{
@@ -410,6 +458,7 @@ func %s() {
 	for _, c := range cites {
 		vnd.Assert(c != 0, "a cited line is never 0")
 		vnd.Assert(c >= %d && c <= %d, "every cited line lies within the failing statement")
+		vnd.Assert(c == %d, "every cited line is the line of the failing construct")
 	}
 	if %v {
 		vnd.Assert(len(cites) > 0, "this fault class always cites a position")
@@ -422,10 +471,42 @@ func %s() {
 		vnd.Assert(hit, "the line of the failing construct is cited")
 	}
 }
-`, fc.id, fc.line, fc.from, fc.to, name, fc.text, fc.healthy, fc.from, fc.to, fc.mustCite, fc.line)
+`, fc.id, fc.line, fc.from, fc.to, name, fc.text, fc.healthy, fc.from, fc.to, fc.line, fc.mustCite, fc.line)
 		fam.Instances = append(fam.Instances, Instance{Func: name, Stratum: fc.class, Desc: fmt.Sprintf("fault %s on line %d", fc.id, fc.line), Text: fc.text, Expect: []string{"executed"}})
 	}
-	fam.Files[repoDir+"/zz_verif/"+pkg+"/h.go"] = c09Head(pkg) + b.String()
+	// the other compile entry points, text starting with blank lines
+	for _, fc := range allFaultCases("thorough") {
+		if !(fc.id == "zerodiv_assign" || fc.id == "strless_if" || fc.id == "intand_elseif" || fc.id == "boom_forbody" || fc.id == "nilmapwrite" || fc.id == "zerodiv_conc" || fc.id == "rangeint") {
+			continue
+		}
+		for _, entry := range []string{"incremental", "poolctor", "poolupdate", "poolincremental"} {
+			name := "E_" + fc.id + "_" + entry
+			lead := "\n   \n\n"
+			fmt.Fprintf(&b, `
+// fault %s compiled through %s, text starting with three blank lines
+func %s() {
+	w := mkWorld()
+	z, ix, npnil, pnil := w.z, w.ix, w.npnil, w.pnil
+	_, _, _, _ = z, ix, npnil, pnil
+	err := viaEntry(%q, w, %q)
+	vnd.Reach("executed")
+	if err == nil {
+		return
+	}
+	if %s {
+		return
+	}
+	cites := citations(err.Error())
+	vnd.Assert(len(cites) > 0 || !%v, "this fault class always cites a position")
+	for _, c := range cites {
+		vnd.Assert(c == %d, "every cited line is the line of the failing construct in the text as submitted")
+	}
+}
+`, fc.id, entry, name, entry, lead+fc.text, fc.healthy, fc.mustCite, fc.line+3)
+			fam.Instances = append(fam.Instances, Instance{Func: name, Stratum: "entry:" + entry, Desc: fmt.Sprintf("fault %s through %s", fc.id, entry), Text: lead + fc.text, Expect: []string{"executed"}})
+		}
+	}
+	fam.Files[repoDir+"/zz_verif/"+pkg+"/h.go"] = c09Head(pkg) + c20Entries + b.String()
 	fam.TestFile = repoDir + "/zz_verif/" + pkg + "/zz_replay_test.go"
 	fam.TestSrc = testFile(pkg, fam.Instances)
 	return fam, nil
